@@ -93,7 +93,9 @@ func usable(parts []string) bool {
 	if !bx.Expressible(s) {
 		return false
 	}
-	if bx.BexprExpressible(s) && bx.Keywords[parts[0]] && !bx.PointerExpressible(s) {
+	if bx.Keywords[parts[0]] {
+		// a bare keyword in first position is read as an operator by PEG ordered choice in several
+		// contexts (`any in as x {..}`, `not not matches ..`); the exhaustive token enumerations cover those
 		return false
 	}
 	for _, p := range parts {
@@ -304,6 +306,9 @@ func (g *ExprGen) literalFor(n *uni.Node, op bx.Op) string {
 		if len(n.Keys) > 0 && c < 65 {
 			kn := n.Keys[g.intn(len(n.Keys), "mk")].Dyn()
 			if l, ok := NaturalLiteral(kn); ok {
+				if c >= 45 && kn.T.K != uni.KString {
+					return g.nearMiss(kn)
+				}
 				return l
 			}
 		}
@@ -319,6 +324,10 @@ func (g *ExprGen) nearMiss(n *uni.Node) string {
 	case k == uni.KBool:
 		return []string{"t", "T", "TRUE", "True", "1", "f", "F", "FALSE", "False", "0", "yes", "tRUE"}[g.intn(12, "bs")]
 	case k.IsSigned():
+		if k.Bits() < 64 && g.intn(8, "iwrap") == 0 {
+			// equal after truncation to the field's width, but a different integer
+			return strconv.FormatInt(n.I+int64(1)<<uint(k.Bits()), 10)
+		}
 		switch g.intn(6, "im") {
 		case 0:
 			if n.I < math.MaxInt64 {
@@ -346,6 +355,9 @@ func (g *ExprGen) nearMiss(n *uni.Node) string {
 			return strconv.FormatInt(n.I, 10) + "0"
 		}
 	case k.IsUnsigned():
+		if k.Bits() < 64 && g.intn(8, "uwrap") == 0 {
+			return strconv.FormatUint(n.U+uint64(1)<<uint(k.Bits()), 10)
+		}
 		switch g.intn(5, "um") {
 		case 0:
 			if n.U < math.MaxUint64 {
